@@ -5,6 +5,7 @@
 package main
 
 import (
+	"runtime/debug"
 	"encoding/json"
 	"flag"
 	"fmt"
@@ -143,6 +144,9 @@ func runProp(pd *propDef, repo, verif, tier string, seed int64, evPath string, s
 	func() {
 		defer func() {
 			if r := recover(); r != nil {
+				if os.Getenv("MDS_PANIC") != "" {
+					fmt.Fprintf(os.Stderr, "%s\n", debug.Stack())
+				}
 				c.undecided("META", "panic", 0, fmt.Sprint("checker panic: ", r))
 			}
 		}()
